@@ -2,6 +2,7 @@ package main
 
 import (
 	"fmt"
+	"os"
 	"go/constant"
 	"go/token"
 	"go/types"
@@ -235,10 +236,28 @@ func (e *Exec) callFn(fn *ssa.Function, args []Value, bind []Value) Value {
 	for i, s := range cf.freevars {
 		fr.regs[s] = bind[i]
 	}
-	if cf.hasDefer {
-		return e.runWithDefers(fr)
+	depth := len(e.stack)
+	e.stack = append(e.stack, fn)
+	if depth > 3000 {
+		panic(pathEnd{"UNWIND recursion depth exceeded in " + fn.String()})
 	}
-	return e.run(fr, cf.blocks[0], nil)
+	var r Value
+	if cf.hasDefer {
+		r = e.runWithDefers(fr)
+	} else {
+		r = e.run(fr, cf.blocks[0], nil)
+	}
+	e.stack = e.stack[:depth]
+	return r
+}
+
+func (e *Exec) stackTrace() string {
+	var sb strings.Builder
+	n := len(e.stack)
+	for i := n - 1; i >= 0 && i >= n-12; i-- {
+		sb.WriteString("\n    at " + e.stack[i].String())
+	}
+	return sb.String()
 }
 
 func (e *Exec) runWithDefers(fr *frame) (ret Value) {
@@ -722,6 +741,35 @@ func (c *compiler) compileInstr(in ssa.Instruction) (run func(fr *frame), specul
 	case *ssa.Call:
 		dst := c.slot(x)
 		f, spec := c.compileCall(x.Common(), in, st)
+		fn := c.cf.fn
+		if fn.Name() == "init" && fn.Pkg != nil && fn.Signature.Recv() == nil && !strings.HasPrefix(fn.Pkg.Pkg.Path(), "seehuhn.de/go/sfnt") {
+			// package initialisers of dependencies are executed leniently: a call the engine cannot
+			// model (templates, reflection, ...) leaves its result at the zero value
+			rt := x.Type()
+			return func(fr *frame) {
+				depth := len(e.stack)
+				defer func() {
+					if r := recover(); r != nil {
+						switch r.(type) {
+						case pathEnd, *goPanic, specAbort:
+							if !e.initPhase {
+								panic(r)
+							}
+						}
+						e.stack = e.stack[:depth]
+						if os.Getenv("GOSYM_DEBUG") != "" {
+							fmt.Fprintf(os.Stderr, "note: init of %s: skipped %s: %v\n", fn.Pkg.Pkg.Path(), st, r)
+						}
+						if tup, ok := rt.(*types.Tuple); ok && tup.Len() == 0 {
+							fr.regs[dst] = nil
+						} else {
+							fr.regs[dst] = zeroOf(rt)
+						}
+					}
+				}()
+				fr.regs[dst] = f(fr)
+			}, false
+		}
 		return func(fr *frame) { fr.regs[dst] = f(fr) }, spec
 	case *ssa.Defer:
 		c.cf.hasDefer = true
